@@ -1,6 +1,7 @@
 """C55 - Log formatting never raises."""
 from __future__ import annotations
 
+from sa.astx import src
 from sa.selftest import Mutant, Silent
 from sa.props._lib_k import EVENT, HOSTILE, SAFE, EscapeAnalysis
 
@@ -50,20 +51,23 @@ def _report(ctx, an, entries, rel):
     sites = sorted(an.sites.values(), key=lambda s: (s.rel, s.node.lineno, s.op))
     n_prot = 0
     for s in sites:
-        c = ctx.construct(f"{_modname(s.rel)}.{s.qual}", s.node)
+        r_rel, r_name = an.root(s.rel, s.fname or s.qual.split(".")[-1])
+        c = f"{_modname(r_rel)}.{r_name} | {s.text}"
         if s.level == "none":
             ctx.violation("escape/unprotected", c,
-                          f"{s.why}: it can raise and no enclosing try catches it on some call path from the formatting entry points")
+                          f"{s.why} (in {s.qual}): it can raise and no enclosing try catches it on some call path from the formatting entry points")
         elif s.level == "exc":
             ctx.violation("escape/handler-not-catch-all", c,
-                          f"{s.why}: the only enclosing handler stops Exception, a BaseException raised by the value escapes the formatter")
+                          f"{s.why} (in {s.qual}): the only enclosing handler stops Exception, a BaseException raised by the value escapes the formatter")
         else:
             n_prot += 1
             ctx.ok("escape/protected", c, s.why)
     for q, _ in entries:
-        for node, k in an.returns.get((rel, q), []):
-            ctx.check(k not in (HOSTILE, EVENT), "returns-text", ctx.construct(f"{_modname(rel)}.{q}", node),
-                      "the formatting function can return an event-derived object instead of text", detail=f"kind={k}")
+        rets = an.returns.get((rel, q), [])
+        bad = [node for node, k in rets if k in (HOSTILE, EVENT)]
+        ctx.check(not bad, "returns-text", f"{_modname(rel)}.{q} | <return value>",
+                  "the formatting function can return an event-derived object instead of text" + (f" ({src(bad[0])[:60]})" if bad else ""),
+                  detail=f"{len(rets)} return statements")
     return len(sites), n_prot
 
 
